@@ -92,8 +92,8 @@ func c09R1(e *Engine) {
 			}
 		})
 	}
-	if n < 13 {
-		e.fail("R1", "count:R1", "-", "only %d single-result assertions found in the front end (13 confirmed by hand)", n)
+	if n < 5 {
+		e.fail("R1", "count:R1", "-", "only %d single-result assertions found in the front end (13 on the reference tree)", n)
 	}
 }
 
@@ -240,7 +240,7 @@ func c09R2(e *Engine) {
 		r := agg[c]
 		e.ob("R2", r.construct, r.pos, r.v, true, "%s", r.detail)
 	}
-	if n < 40 {
+	if n < 20 {
 		e.fail("R2", "count:R2", "-", "only %d indexing sites found in the front end (about 75 on the reference tree)", n)
 	}
 }
@@ -477,8 +477,8 @@ func c09R3(e *Engine) {
 		_ = errsTest
 		e.check(ok, "R3", "interp."+name+":errors-before-eval", e.pos(fn.Pos()), "evaluation is confined to the len(p.Errors()) == 0 edge")
 	}
-	if n < 5 {
-		e.fail("R3", "count:R3", "-", "only %d nil-returns found in the parser (6 confirmed by hand)", n)
+	if n < 3 {
+		e.fail("R3", "count:R3", "-", "only %d nil-returns found in the parser (6 on the reference tree)", n)
 	}
 }
 
@@ -749,7 +749,7 @@ func c09R4(e *Engine) {
 			e.fail("R4", construct, pos, "a cycle through this loop neither consumes input nor descends into a sub-term: it may not terminate")
 		}
 	}
-	if n < 20 {
+	if n < 10 {
 		e.fail("R4", "count:R4", "-", "only %d loops found in the front end", n)
 	}
 	// the lexer reaches EOF: NextToken consumes at least one byte unless at end – checked for all but the identifier path
